@@ -1,7 +1,9 @@
 import Aiorpcx.C04.Dumps
+import Aiorpcx.C04.Loads
 import Aiorpcx.C04.Roundtrip
 import Aiorpcx.C04.Loose
 import Aiorpcx.C04.ClassifyProofs
+import Aiorpcx.C04.Table
 import Aiorpcx.Facts.C04
 /-!
 # C04 — the JSON-RPC codec is loss-free and conforms to each version's wire format
@@ -12,8 +14,11 @@ array", so equality of items is equality at the JSON data-model level (`J`, stru
 also preserves dict order and distinguishes `1`, `1.0`, `true`).  Everything is quantified over
 **all** methods, argument values, ids and payloads; there is no bound.
 
-`json.loads` is a parameter (`Ser.loads`) with the laws L1/L1b of the trusted base; `json.dumps`
-is the serializer model `dumps`, whose output alphabet is a theorem.
+`json.dumps` is the serializer model `dumps`, whose output alphabet is a theorem.  `json.loads` is a
+parameter (`Ser.loads`) with the laws L1/L1b; `Loads.lean` proves that the laws are satisfiable
+(`serOf`: a reader for which L1 and L1b are theorems, for any float codec - so `dumps` is injective
+on well-formed values and no `*_message` theorem is vacuous); what remains trusted about the real
+`json` module is that it obeys the same two laws (sampled on every generated value each run).
 -/
 namespace Aiorpcx.C04
 open Aiorpcx.Py
@@ -342,6 +347,20 @@ theorem message_level_batch (cfg : DumpCfg) {sep : List Char} (S : Ser cfg sep) 
       = payloadToItem P (.arr ps) := by
   rw [S.L1b ps hne hwf]; rfl
 
+/-- **the laws are satisfiable**: from any float codec (a rendering of the canonical finite floats
+as number tokens with a left inverse - what `float.__repr__`/`float()` are to CPython) the reader of
+`Loads.lean` makes a `Ser`, for every comma/colon-separated configuration and batch separator -/
+def serOf (cfg : DumpCfg) (sep : List Char) (C : FloatCodec) (hc : CfgOK cfg) (hs : SepForm sep ',') :
+    Ser cfg sep where
+  fr := C.fr
+  loads := loadsOf C.pf
+  L1 := loads_dumps cfg C hc
+  L1b := loads_batch cfg C hc sep hs
+
+/-- in particular for the configuration observed in /repo on this run -/
+theorem ser_exists (cfg : DumpCfg) (sep : List Char) (hc : CfgOK cfg) (hs : SepForm sep ',') :
+    Nonempty (Ser cfg sep) := ⟨serOf cfg sep toyFloat hc hs⟩
+
 theorem wf_obj_cons (k : Str) (v : J) (r : List (Str × J)) :
     (J.obj ((k, v) :: r)).wf = (!(J.hasKey k r) && uniqueKeys r && (strWf k && keysWf r)
       && (v.wf && J.wfObj r)) := by
@@ -407,19 +426,72 @@ theorem roundtrip_error_message (cfg : DumpCfg) {sep : List Char} (S : Ser cfg s
   rw [message_level cfg S g P _ (errorPayload_wf P code msg rid hc hm hr),
     roundtrip_error P hP code msg rid hcode hrid]
 
-/-- 1.0 through the bytes: results (any result, any id) and requests (any non-null id) -/
+/-- 1.0 through the bytes: results (any result, any id), requests (any non-null id),
+notifications, and errors (int code, string message, any id) -/
 theorem roundtrip_v1_message (cfg : DumpCfg) {sep : List Char} (S : Ser cfg sep) (g : PayloadGuards) (m : Str)
     (xs : List J) (v rid : J) (hm : strWf m = true) (hx : (J.arr xs).wf = true)
     (hv : v.wf = true) (hr : rid.wf = true) :
     messageToItem g .v1 (S.loads (dumps cfg S.fr (responsePayload .v1 v rid)))
       = .ok (.response (.result v), rid)
     ∧ (rid.isNone = false → ∃ p, requestPayload .v1 m (.arr xs) rid = .ok p
-        ∧ messageToItem g .v1 (S.loads (dumps cfg S.fr p)) = .ok (.request m (.arr xs), rid)) := by
-  constructor
+        ∧ messageToItem g .v1 (S.loads (dumps cfg S.fr p)) = .ok (.request m (.arr xs), rid))
+    ∧ (∃ p, requestPayload .v1 m (.arr xs) .null = .ok p
+        ∧ messageToItem g .v1 (S.loads (dumps cfg S.fr p)) = .ok (.notification m (.arr xs), .null))
+    ∧ (∀ (code : J) (msg : Str), code.isInt = true → strWf msg = true →
+        messageToItem g .v1 (S.loads (dumps cfg S.fr (errorPayload .v1 code (.str msg) rid)))
+          = .ok (.response (.rpcError code msg), rid)) := by
+  refine ⟨?_, ?_, ?_, ?_⟩
   · rw [message_level cfg S g .v1 _ (responsePayload_wf .v1 v rid hv hr), roundtrip_result_v1]
   · intro hn
     obtain ⟨p, h1, h2⟩ := roundtrip_request_v1 m xs rid hn
     exact ⟨p, h1, by rw [message_level cfg S g .v1 p (requestPayload_wf .v1 m _ rid p h1 hm hx hr), h2]⟩
+  · obtain ⟨p, h1, h2⟩ := roundtrip_notification_v1 m xs
+    exact ⟨p, h1, by rw [message_level cfg S g .v1 p (requestPayload_wf .v1 m _ .null p h1 hm hx rfl), h2]⟩
+  · intro code msg hcode hmsg
+    have hc : code.wf = true := by cases code <;> simp [J.isInt] at hcode <;> rfl
+    rw [message_level cfg S g .v1 _ (errorPayload_wf .v1 code msg rid hc hmsg hr),
+      roundtrip_error_v1 code msg rid hcode]
+
+/-- a batch through the bytes: the framed member messages read back as the batch of the member
+payloads, which decode one by one to the members, each under its own id -/
+theorem roundtrip_batch_message (cfg : DumpCfg) {sep : List Char} (S : Ser cfg sep) (g : PayloadGuards)
+    (P : Proto) (hP : P ≠ .v1) (ms : List Member) (hne : ms ≠ []) (h : ∀ mb ∈ ms, mb.valid)
+    (hwf : ∀ ps, batchPayloads P ms = .ok ps → ∀ p ∈ ps, p.wf = true) :
+    ∃ ps, batchPayloads P ms = .ok ps
+      ∧ messageToItem g P (S.loads (batchFromParts sep (ps.map (dumps cfg S.fr)))) = .ok (.batch ps, .null)
+      ∧ mapM' (processRequest P) ps = .ok (ms.map Member.item) := by
+  obtain ⟨ps, h1, h2, h3⟩ := roundtrip_batch P hP ms hne h
+  have hps : ps ≠ [] := by
+    intro hnil
+    rw [hnil] at h2
+    cases P <;> simp [payloadToItem, Proto.allowBatches] at h2
+  exact ⟨ps, h1, by rw [message_level_batch cfg S g P ps hps (hwf ps h1), h2], h3⟩
+
+/-! ### the message-level theorems are not vacuous: instances with the reader of `Loads.lean` -/
+
+/-- the pinned configuration `separators=(',', ':')`, batch separator `", "` -/
+def cfgPinned : DumpCfg := ⟨[','], [':'], true, false⟩
+def serPinned : Ser cfgPinned [',', ' '] :=
+  serOf cfgPinned [',', ' '] toyFloat ⟨sepFormB_sound (by decide), sepFormB_sound (by decide)⟩
+    (sepFormB_sound (by decide))
+
+example : ∃ p, requestPayload .v2 (lit "m\n") (.arr [.float (.fin 3 (-1)), .str [0xD800]]) (.int 7) = .ok p
+    ∧ messageToItem .repaired .v2 (serPinned.loads (dumps cfgPinned serPinned.fr p))
+        = .ok (.request (lit "m\n") (.arr [.float (.fin 3 (-1)), .str [0xD800]]), .int 7) :=
+  roundtrip_request_message cfgPinned serPinned .repaired .v2 (by decide) _ _ _ (Or.inl rfl) (Or.inl rfl)
+    (by decide) (by decide) (by decide)
+
+example : messageToItem .repaired .loose
+      (serPinned.loads (dumps cfgPinned serPinned.fr (responsePayload .loose (.obj [(lit "k", .null)]) (.str []))))
+    = .ok (.response (.result (.obj [(lit "k", .null)])), .str []) :=
+  roundtrip_result_message cfgPinned serPinned .repaired .loose (by decide) _ _ (Or.inr (Or.inl rfl))
+    (by decide) (by decide)
+
+example : messageToItem .repaired .v1
+      (serPinned.loads (dumps cfgPinned serPinned.fr (responsePayload .v1 (.int 5) (.arr [.int 1]))))
+    = .ok (.response (.result (.int 5)), .arr [.int 1]) :=
+  (roundtrip_v1_message cfgPinned serPinned .repaired [] [] (.int 5) (.arr [.int 1]) (by decide) (by decide)
+    (by decide) (by decide)).1
 
 /-! ## Noted divergences from the letter of the property (outside its quantifier) -/
 
@@ -447,7 +519,7 @@ theorem float_id_preserved :
     payloadToItem .v2 (responsePayload .v2 .null (.float (.fin 1 0)))
       = .ok (.response (.result .null), .float (.fin 1 0)) := by decide
 
-/-! ## Facts tie: the constants and call-site configuration read from /repo on this run -/
+/-! ## Facts tie: what RUNNING the codec of /repo showed on this run (tools/facts/c04.py) -/
 
 theorem facts_codes :
     Facts.C04.parseError = PARSE_ERROR ∧ Facts.C04.invalidRequest = INVALID_REQUEST
@@ -456,21 +528,81 @@ theorem facts_codes :
     ∧ Facts.C04.errorCodeUnavailable = ERROR_CODE_UNAVAILABLE
     ∧ Facts.C04.codesSameOnEveryClass = true := by decide
 
-theorem facts_allow_batches : ∀ P : Proto, Facts.C04.allowBatches P = P.allowBatches := by
+/-- which classes decode an array as a batch and emit batches (probed on both directions) -/
+theorem facts_allow_batches :
+    (∀ P : Proto, Facts.C04.allowBatches P = P.allowBatches)
+    ∧ Facts.C04.allowBatchesConsistent = true := by
+  refine ⟨?_, by decide⟩
   intro P; cases P <;> decide
 
-/-- the `json.dumps` call is configured so that `dumps_no_newline` applies to it -/
+/-- the serializer, as observed on the bytes every encoder emits, is configured so that
+`dumps_no_newline` applies: printable separators, non-ASCII escaped, nothing else deviating from
+`json.dumps(v, separators=…)` on the probe set -/
 theorem facts_dumps_cfg : Facts.C04.dumpCfg.ok :=
   ⟨by decide, by decide, by decide, by decide⟩
 
-/-- the separator `batch_message_from_parts` joins with keeps the batch a one-line JSON array -/
+/-- … and so that the reader of `Loads.lean` inverts it: the separators are a comma / a colon with
+blanks around them at most, hence `Ser Facts.C04.dumpCfg Facts.C04.batchJoin` is inhabited and
+`dumps Facts.C04.dumpCfg` is injective on well-formed values -/
+theorem facts_readable :
+    CfgOK Facts.C04.dumpCfg ∧ SepForm Facts.C04.batchJoin ','
+    ∧ Nonempty (Ser Facts.C04.dumpCfg Facts.C04.batchJoin) := by
+  have h1 : CfgOK Facts.C04.dumpCfg := ⟨sepFormB_sound (by decide), sepFormB_sound (by decide)⟩
+  have h2 : SepForm Facts.C04.batchJoin ',' := sepFormB_sound (by decide)
+  exact ⟨h1, h2, ser_exists _ _ h1 h2⟩
+
+/-- what `batch_message_from_parts` / `batch_message` put between the member messages keeps the
+batch a one-line JSON array, and the whole is `[` … `]` -/
 theorem facts_batch_join :
     sepOK Facts.C04.batchJoin = true ∧ Facts.C04.batchWrapIsBrackets = true := by decide
 
-theorem facts_class_wiring : Facts.C04.classWiringAsModelled = true := by decide
+/-- **decision table of the real decoders**: on a representative message of every row of the
+specification table (all 1152 object shapes, empty array, array, non-container) the real
+`message_to_item` of each protocol class produced exactly the outcome class `classify` states -/
+theorem facts_decode_table : ∀ P : Proto, Facts.C04.decodeTable P = specColumn P := by
+  intro P; cases P <;> decide +kernel
 
-/-- `_message_to_payload` turns a failed decode / failed parse into PARSE_ERROR (the two
-outcomes C04 is concerned with; the resource-limit outcomes are C05's) -/
+/-- the table has a row for every decoded payload … -/
+theorem mem_allShapes (s : Shape) (h : s.methodStr = true → s.hasMethod = true) :
+    s ∈ allShapes := by
+  obtain ⟨j, hm, ms, p, i, r, e⟩ := s
+  simp only [allShapes, List.mem_flatMap, List.mem_map]
+  refine ⟨j, by cases j <;> simp, (hm, ms), ?_, p, by cases p <;> simp [allParamsK],
+    i, by cases i <;> simp [allIdK], r, by cases r <;> simp [allResK],
+    e, by cases e <;> simp [allErrK], rfl⟩
+  cases hm <;> cases ms <;> simp_all [allMethodK]
+
+theorem topOf_mem_allTops (p : J) : topOf p ∈ allTops := by
+  unfold allTops
+  cases p with
+  | obj kvs =>
+      exact List.mem_append_left _ (List.mem_map.2 ⟨_, mem_allShapes _ (shapeOf_methodStr kvs), rfl⟩)
+  | arr xs => cases xs <;> simp [topOf]
+  | _ => simp [topOf]
+
+/-- … so, with `classification_total`: for **every** payload the model's decoder gives the
+outcome class the real decoder gave on the representative of the payload's row -/
+theorem decode_table_covers (P : Proto) (p : J) :
+    ∃ i : Nat, allTops[i]? = some (topOf p)
+      ∧ (Facts.C04.decodeTable P)[i]? = some (outCode (outClass (payloadToItem P p))) := by
+  obtain ⟨i, hi⟩ := List.getElem?_of_mem (topOf_mem_allTops p)
+  refine ⟨i, hi, ?_⟩
+  rw [facts_decode_table P, classification_total P p]
+  simp [specColumn, List.getElem?_map, hi]
+
+/-- **what the real encoders emitted** on the probe grid (requests / notifications with every
+argument kind incl. `[]`, `()`, `{}`; results; errors; a batch; under all four classes) is what the
+model's encoders produce - members compared as sets, refusals by their code -/
+theorem facts_encode_table : Facts.C04.encodeTable.all EncRow.holds = true := by decide +kernel
+
+/-- the real `detect_protocol` chose, on every probe message (all combinations of the members it
+looks at, non-objects, batches mixing the classes), the class the model's `detectProtocol` chooses -/
+theorem facts_detect_table :
+    Facts.C04.detectTable.all (fun r => some (detectProtocol r.1) == r.2) = true := by decide +kernel
+
+/-- the failing outcomes of `json.loads(message.decode())` C04 is concerned with (invalid UTF-8,
+invalid JSON) were turned into PARSE_ERROR by the real decoder (the resource-limit outcomes are
+C05's) -/
 theorem facts_parse_errors (P : Proto) :
     (∃ e, messageToItem Facts.C04.payloadGuards P .unicodeError = .error (.proto e)
         ∧ e.code = PARSE_ERROR)
